@@ -13,7 +13,8 @@ RULE = ("random edit histories (5-30 operations) on one object of each of the te
         "(history continues on the copy), add_constraint_* on PCBO/PCSO, and un-refreshed observations "
         "to_pubo/to_qubo/to_puso/to_quso/to_enumerated. Non-trivial = history with >= 4 distinct operation kinds "
         "that reached a state with >= 2 variables; distinct = digest of (type, operation list)")
-TIERS = {"quick": {"shards": 8, "cases": 450}, "thorough": {"shards": 16, "cases": 15000}}
+TIERS = {"quick": {"shards": 8, "cases": 3000}, "thorough": {"shards": 16, "cases": 40000}}
+FLOOR_BASE = {"quick": 450, "thorough": 15000}    # case counts the floors below were calibrated for; the launcher scales them
 TYPES = ["QUBO", "PUBO", "PCBO", "QUSO", "PUSO", "PCSO", "QUBOMatrix", "PUBOMatrix", "QUSOMatrix", "PUSOMatrix"]
 OPS = ["cancel_top", "set", "set0", "setdup", "iadd_item", "isub_item", "imul_item", "cancel", "iadd0", "iadd", "isub", "imul",
        "idiv", "ipow", "update", "clear", "refresh", "copy", "derive", "constraint", "observe", "setbad"]
